@@ -21,6 +21,7 @@ import numpy as np
 
 import blackbird
 
+import strawberryfields as sf
 import strawberryfields.parameters as sfpar
 from strawberryfields.program import Program
 from strawberryfields.tdm import TDMProgram, is_ptype
@@ -170,6 +171,10 @@ def _op_parameters(op) -> list:
     if name == "Fouriergate":
         # the rotation angle is fixed, the constructor takes no arguments
         params = []
+
+    if name == "Gaussian":
+        # the operation stores V / (hbar / 2), the constructor expects V in units of hbar
+        params[0] = params[0] * (sf.hbar / 2)
 
     if getattr(op, "dagger", False):
         # neither format has a syntax for the formal inverse of a gate: write the inverse gate out
